@@ -4,7 +4,11 @@ C12 - the 1-D intensity of an oriented model is the orientational average of its
 Space: every oriented model x shape parameter sets (defaults; every single shape ("volume") parameter
 scaled by a small and by a large factor; in the thorough tier also by their squares, and every pair of
 them scaled, 2 x 2 factor combinations) x q with q*size in {0.1, 0.5, 1, 2, 5, 10, 20}, size = cube root of the form volume.
-One case = one (model, parameter set); the q values are looped inside.
+Two base sets per model: the defaults, and (where it differs) the "activated" base in which every non-SLD,
+non-orientation parameter whose default 0 switches an effect off gets a non-zero value inside its limits
+(stacked_disks sigma_d, ..._belt_rough sigma) and every count-like parameter with default 1 (n_stacking) is 3;
+the volume-parameter moves are applied on top of both.
+One case = one (model, base, parameter set); the q values are looped inside.
 
 Oracle: composite Gauss-Legendre average over the FULL sphere (2 panels in cos(alpha) x 4 panels in
 beta for triaxial shapes, 2 panels for shapes of revolution; no symmetry of the model is assumed) of
@@ -46,10 +50,12 @@ FACTORS = [(0.25, 4.0), (0.3, 3.3), (0.2, 5.0), (0.35, 2.8), (0.27, 3.7), (0.22,
 QTWEAK = [1.0, 1.07, 0.93, 1.13, 0.88, 1.03, 0.97, 1.1]
 LADDER = {"quick": [24, 48, 96, 192], "thorough": [24, 48, 96, 192, 384]}
 BOUNDS = {
-    "quick": {"models": "all 21 oriented models", "parameter_sets": "defaults + each volume parameter x {1/4, 4} (seed-rotated)",
+    "quick": {"models": "all 21 oriented models", "parameter_sets": "bases {defaults, activated: zero-default parameters non-zero, counts = 3} x "
+                                "(unchanged + each volume parameter x {1/4, 4}, seed-rotated)",
               "q*size": QSIZE, "ladder": LADDER["quick"], "ref_tol": 1e-7, "model_tol": 1e-6, "verdict_tol": 1e-5},
     "thorough": {"models": "all 21 oriented models",
-                 "parameter_sets": "defaults + each volume parameter x {1/16, 1/4, 4, 16} + every pair of volume parameters x {1/4, 4}^2",
+                 "parameter_sets": "bases {defaults, activated} x (unchanged + each volume parameter x {1/16, 1/4, 4, 16} + "
+                                   "every pair of volume parameters x {1/4, 4}^2)",
                  "q*size": QSIZE, "ladder": LADDER["thorough"], "ref_tol": 1e-7, "model_tol": 1e-6, "verdict_tol": 1e-5},
 }
 CASE_TIMEOUT = 900
@@ -86,25 +92,71 @@ def setup(ctx):
     ctx.notes["shim"] = {"%s|%s" % (n, g): p for (n, g), p in paths.items()}
 
 
+ACT_LENGTH = (5.0, 3.0, 8.0, 4.0, 6.5, 2.5, 7.0, 3.5)          # Ang: zero-default lengths (roughness, ...)
+ACT_PLAIN = (0.3, 0.2, 0.4, 0.25, 0.35, 0.15, 0.45, 0.28)       # dimensionless zero-default parameters
+ACT_COUNT = 3.0
+
+
+def is_count(p):
+    """documented as a number of repeats (n_stacking, n_shells, ...) with default 1"""
+    d = (p.description or "").strip().lower()
+    return p.default == 1 and p.length == 1 and (p.name.startswith("n_") or d.startswith("number of")
+                                                 or d.startswith("number "))
+
+
+def activated(info, ctx):
+    """
+    the "activated" base: every non-SLD, non-orientation parameter whose default 0 switches an effect off gets a
+    representative non-zero value inside its limits (seed-rotated), every count-like parameter with default 1 is
+    raised to 3.  Returns {name: value}; empty if the model has no such parameter.
+    """
+    out = {}
+    for k, p in enumerate(info.parameters.kernel_parameters):
+        if p.type in ("sld", "orientation", "magnetic") or p.length != 1:
+            continue
+        lo, hi = p.limits
+        v = None
+        if is_count(p):
+            v = ACT_COUNT
+        elif p.default == 0:
+            v = ctx.rot(ACT_LENGTH if "Ang" in (p.units or "") else ACT_PLAIN, k)
+            if not lo <= v <= hi:
+                v = -v if lo <= -v <= hi else (0.5 * (lo + hi) if np.isfinite(lo) and np.isfinite(hi) else None)
+        if v is not None and lo <= v <= hi and v != p.default:
+            out[p.name] = float(v)
+    return out
+
+
+def base_values(info, ctx, base):
+    vals = {p.name: p.default for p in info.parameters.call_parameters}
+    if base == "activated":
+        vals.update(activated(info, ctx))
+    return vals
+
+
 def cases(ctx):
     out = []
     lo, hi = ctx.rot(FACTORS)
     for m in oriented_models():
         info = build.info(m)
         vol = volume_pars(info)
-        out.append({"model": m, "scaled": {}})
-        singles = (lo, hi) if ctx.quick else (lo, hi, lo * lo, hi * hi)
-        for p in vol:
-            for f in singles:
-                if p.limits[0] <= p.default * f <= p.limits[1]:
-                    out.append({"model": m, "scaled": {p.name: f}})
-        if not ctx.quick:
-            for p1, p2 in itertools.combinations(vol, 2):
-                for f1 in (lo, hi):
-                    for f2 in (lo, hi):
-                        if (p1.limits[0] <= p1.default * f1 <= p1.limits[1]
-                                and p2.limits[0] <= p2.default * f2 <= p2.limits[1]):
-                            out.append({"model": m, "scaled": {p1.name: f1, p2.name: f2}})
+        bases = ["default"] + (["activated"] if activated(info, ctx) else [])
+        for base in bases:
+            vals = base_values(info, ctx, base)
+            tag = {} if base == "default" else {"base": base}
+            ok = lambda p, f: p.limits[0] <= vals[p.name] * f <= p.limits[1]
+            out.append(dict({"model": m, "scaled": {}}, **tag))
+            singles = (lo, hi) if ctx.quick else (lo, hi, lo * lo, hi * hi)
+            for p in vol:
+                for f in singles:
+                    if ok(p, f):
+                        out.append(dict({"model": m, "scaled": {p.name: f}}, **tag))
+            if not ctx.quick:
+                for p1, p2 in itertools.combinations(vol, 2):
+                    for f1 in (lo, hi):
+                        for f2 in (lo, hi):
+                            if ok(p1, f1) and ok(p2, f2):
+                                out.append(dict({"model": m, "scaled": {p1.name: f1, p2.name: f2}}, **tag))
     return out
 
 
@@ -179,13 +231,14 @@ def run_case(case, ctx):
     sh_alt = shim.load(ctx.notes["shim"]["%s|%s" % (name, galt)], name) if galt else None
     if sh.mode not in (2, 3):
         raise HarnessError("%s: shim found no Iqac/Iqabc" % name)
-    pars = {p.name: p.default for p in info.parameters.call_parameters}
+    base = case.get("base", "default")
+    pars = base_values(info, ctx, base)
     for k, f in case["scaled"].items():
         pars[k] = pars[k] * f
     pars["scale"], pars["background"] = 1.0, 0.0
     p = sh.pvec(pars)
     fk = {"model": name, "clause": "Iq-vs-average"}
-    shown = {k: pars[k] for k in case["scaled"]} or "defaults"
+    shown = dict(activated(info, ctx) if base == "activated" else {}, **{k: pars[k] for k in case["scaled"]}) or "defaults"
     if not sh.valid(p):
         return r.inconc("parameter-set-invalid")
     form, shell = sh.volumes(p)
@@ -215,6 +268,8 @@ def run_case(case, ctx):
     for k in range(1, len(q)):
         sub = {"q": float(q[k]), "q*size": QSIZE[k - 1] * tweak}
         br = ["hollow"] if shell != form else []
+        if base == "activated":
+            br.append("activated-base")
         if not np.isfinite(I1[k]) or I1[k] <= 0:
             r.inconc("model-not-finite-positive")
             continue
@@ -260,5 +315,6 @@ def finish(ctx, report):
     report.require("hollow", 20, "hollow shapes (shell volume != form volume)")
     report.require("F2-checked", 150, "<F^2> from call_Fq compared")
     report.require("ladder-refined", 20, "reference needed more than the first two ladder orders")
+    report.require("activated-base", 30, "decidable points on the base with zero-default / count-like parameters activated")
     report.require("gauss-switch:150", 100, "model re-integrated with the 150-point table")
     report.require("gauss-switch:76", 1, "model with a native 150-point table re-integrated with 76 points")
